@@ -177,9 +177,7 @@ func checkInstance(c InstCase, o *vcore.Obs) error {
 	time.Sleep(time.Duration(c.CancelAfterUs) * time.Microsecond)
 	midFlight := b.LogLen()
 	cancel()
-	select {
-	case <-syncDone:
-	case <-time.After(5 * time.Second):
+	if !waitChan(syncDone, 5*time.Second) {
 		return fmt.Errorf("Sync did not return within 5 s of cancellation:\n%s", stuck("lightningstream/"))
 	}
 	stopWriters.Store(true)
